@@ -937,11 +937,9 @@ func kindName(k int) string {
 // ---------------------------------------------------------------- C16
 func expectedCodec(h *history, t int, params int64) string {
 	switch h.Tracks[t].Kind {
-	case kH264:
-		s := spsOf(params)
-		return "avc1." + hex.EncodeToString(s[1:4])
-	case kH265, kVP9, kAV1:
-		return videoCodecString(h.Tracks[t].Kind, params)
+	case kH264, kH265, kVP9, kAV1:
+		// recomputed from the bytes of the parameter sets / headers in force (codecstr.go)
+		return codecFromParamBytes(h.Tracks[t].Kind, params)
 	case kAAC:
 		return "mp4a.40.2"
 	case kOpus:
